@@ -319,9 +319,10 @@ Section Bookkeeping.
                         Ok (respond s (completion_answer (ana s) r sc)))
         end
     | RRename =>
+        (* since /repo 92ace6d the handler only reads the analysis (it no longer relabels the live symbol table) *)
         match rename_answer (ana s) r with
         | None => Ok (respond s null)
-        | Some resp => Ok (respond (perform_codegen s) resp)
+        | Some resp => Ok (respond s resp)
         end
     | RCodeLens => Ok (respond s (codelens (source (files s)) r))
     | ROther => Ok (respond s (answer (ana s) r))
